@@ -33,6 +33,9 @@ func (x *Exec) execInstr(fr *Frame, b *ssa.BasicBlock, ins ssa.Instruction, st *
 			}
 			x.check(fr, st, "nil", Not(Eq(xv.Loc.Root, nilRef)), i.Pos(), "nil pointer dereference")
 			x.setv(fr, i, x.loadLoc(st, xv.Loc))
+			if g, ok := i.X.(*ssa.Global); ok {
+				x.assumeGlobalInvsAt(fr, st, g)
+			}
 		case token.NOT:
 			x.setv(fr, i, Value{K: KScalar, X: Not(xv.X)})
 		case token.SUB:
@@ -689,4 +692,31 @@ func (x *Exec) sliceOp(fr *Frame, st *State, i *ssa.Slice) Value {
 	}
 	unsupported("slice of %v", base.K)
 	return Value{}
+}
+
+// assumeGlobalInvsAt: a global named in a globalinv is effectively final (mechanical scan, obligation
+// "final" of the package initialiser) and the invariant is established by the initialiser (obligation
+// "globalinv"), so it holds whenever the global is read - also after calls and loop cuts that havoc the
+// heap component the global lives in.
+func (x *Exec) assumeGlobalInvsAt(fr *Frame, st *State, g *ssa.Global) {
+	if g.Pkg == nil || fr.fn.Name() == "init" {
+		return
+	}
+	pi := x.vc.uni.pkgs[g.Pkg.Pkg.Path()]
+	if pi == nil || pi.Contracts == nil {
+		return
+	}
+	for _, gi := range pi.Contracts.GlobalInvs {
+		ids := map[string]bool{}
+		ceIdents(gi.Expr, ids)
+		if !ids[g.Name()] {
+			continue
+		}
+		env := &CEnv{x: x, fr: fr, st: st, old: &fr.entry, pkg: pi, mode: x.m(), vars: map[string]Value{}}
+		t, msg := safeEvalBool(env, gi.Expr)
+		if msg != "" {
+			continue
+		}
+		x.vc.assume(Implies(st.Reach, t))
+	}
 }
